@@ -110,8 +110,12 @@ Definition c09_sched_ops (V V' : rview) (st : ostep) : list rop :=
   (* a required-node ask acted on node n in this cycle *)
   let req_on (n : N) := existsb (fun b => ask_req V (r_app b) (r_key b) =? n) allocs ||
                         existsb (fun b => ask_req V' (r_app b) (r_key b) =? n) added in
-  let cancelled := filter (fun x => negb (bound x) && outstanding V (r_app x) (r_key x)) removed in
-  let stale := filter (fun x => negb (bound x) && negb (outstanding V (r_app x) (r_key x))) removed in
+  (* PartitionContext.reserve for an ask that already holds a reservation on another node ("fixing" path, reached when
+     the preemptor returns a Reserved result for an ask reserved elsewhere): the old reservation is given up inside
+     part_reserve itself (RReserve), it is not a cancellation of its own *)
+  let moved (x : rres) := existsb (is_res (r_app x) (r_key x)) added in
+  let cancelled := filter (fun x => negb (bound x) && negb (moved x) && outstanding V (r_app x) (r_key x)) removed in
+  let stale := filter (fun x => negb (bound x) && negb (moved x) && negb (outstanding V (r_app x) (r_key x))) removed in
   let req_nodes := nodup N.eq_dec (map r_node (filter (fun x => req_on (r_node x)) cancelled)) in
   map (fun n => RCancelRequired n true) req_nodes ++
   map (fun x => RCancel (r_app x) (r_key x)) (filter (fun x => negb (req_on (r_node x))) cancelled) ++
